@@ -35,6 +35,9 @@ SHARD_TIMEOUT = {"quick": 900, "thorough": 3000}
 
 ABSTRACT = [f"c{i}" for i in range(8)]
 ADVERSARIAL = ["a", "ab", "a_b", "aa", "a0", "ba", "abc", "b", "a_", "_a", "ab_", "aab"]
+# legal identifiers that extend "a" by a character which is no regex word character (a regex word boundary is no dotted
+# component boundary), and a name that sorts after every ASCII name
+ADVERSARIAL += ["a·b", "a\u093f", "\u00fcb"]
 _TOKEN = re.compile(r"\bc[0-7]\b")
 
 
@@ -267,7 +270,12 @@ def case_scan(rnd, rho1, rho2, acc, sample=False, forced=None):
     if forced:
         spec, mp_rel, include = forced["spec"], forced["mp"], forced["include"]
     else:
-        spec = trees.random_project(rnd, depth=3, names=ABSTRACT, imports_per_file=(1, 3), extras=False)
+        if rnd.random() < 0.5:
+            # the root directory takes part in the renaming (its name may become a string prefix of a package name) and
+            # some imports are written relative to module_path's parent directory
+            spec = trees.random_project(rnd, root="c7", depth=3, names=ABSTRACT[:7], imports_per_file=(1, 3), extras=False)
+        else:
+            spec = trees.random_project(rnd, depth=3, names=ABSTRACT, imports_per_file=(1, 3), extras=False)
         files = sorted(spec["files"])
         for f in files:
             if rnd.random() < 0.4:
@@ -275,12 +283,33 @@ def case_scan(rnd, rho1, rho2, acc, sample=False, forced=None):
                 spec["files"][f] = f"import {ext}\n" + spec["files"][f]
         dirs = [d for d in trees.all_dirs(spec) if d]
         mp_rel = rnd.choice(dirs) if dirs and rnd.random() < 0.6 else ""
+        if spec["root"] != "proj" and mp_rel:
+            acc.count("scan_pairs_with_renamed_root_and_parent_relative_imports", 1 if trees.relativise(spec, mp_rel, rnd, prob=0.8) else 0)
+            # adversarial on purpose: the root's new name is a string prefix of the new name of module_path's top package
+            rho2 = dict(rho2)
+            top = mp_rel.split("/")[0]
+
+            def give(token, wanted):
+                for k, v in list(rho2.items()):
+                    if v in wanted and k != token:
+                        rho2[k], rho2[token] = rho2[token], v
+                        return True
+                return rho2[token] in wanted
+
+            if give("c7", ["a"]) or True:
+                if rho2["c7"] != "a":
+                    old = rho2["c7"]
+                    rho2["c7"] = "a"
+                    for k, v in rho2.items():
+                        if v == "a" and k != "c7":
+                            rho2[k] = old
+                give(top, ["ab", "a_b", "aa", "a0", "abc", "a_", "aab", "ab_"]) or rho2.__setitem__(top, "ab" if "ab" not in rho2.values() else rho2[top])
         include = rnd.random() < 0.5
     case = {"kind": "scans", "spec": spec, "mp": mp_rel, "include": include, "rho2": rho2}
     outs = []
     for rho in (rho1, rho2):
         un = unren_factory(rho)
-        s2 = {"root": "proj", "dirs": [ren(d, rho) for d in spec.get("dirs", [])], "files": {ren(k, rho): ren(v, rho) for k, v in spec["files"].items()}}
+        s2 = {"root": ren(spec.get("root", "proj"), rho), "dirs": [ren(d, rho) for d in spec.get("dirs", [])], "files": {ren(k, rho): ren(v, rho) for k, v in spec["files"].items()}}
         root = trees.write_tree(s2)
         try:
             HUB.case = case
